@@ -859,6 +859,18 @@ pub fn c31_from_degree_sound_no_third() {
   degree_no_third(c, kani::any(), kani::any());
 }
 
+/// core::slice::memchr::memchr_aligned by its definition (the first index holding the byte)
+pub fn naive_memchr_aligned(x: u8, text: &[u8]) -> Option<usize> {
+  let mut i = 0;
+  while i < text.len() {
+    if text[i] == x {
+      return Some(i);
+    }
+    i += 1;
+  }
+  None
+}
+
 //# props: C99
 //# kind: probe
 //# fns: Sat::from_degree
@@ -869,6 +881,7 @@ pub fn c31_from_degree_sound_no_third() {
 #[cfg_attr(kani, kani::stub(u64::from_str_radix, stub_u64_from_str_radix))]
 #[cfg_attr(kani, kani::stub(Height::starting_sat, contract_starting_sat))]
 #[cfg_attr(kani, kani::stub(Height::subsidy, contract_subsidy))]
+#[cfg_attr(kani, kani::stub(core::slice::memchr::memchr_aligned, naive_memchr_aligned))]
 pub fn c99_nt_cycle0() {
   degree_no_third(0, kani::any(), kani::any());
 }
